@@ -148,10 +148,19 @@ def run_case(case, acc):
     tims = [case['timer']] if 'timer' in case else sorted(TIMERS)
     for pn in pols:
         for tn in tims:
-            one(case, pn, tn, acc)
+            if pn.startswith('exit@'):
+                # the loop goes on with a socket that was closed under its selector: every platform flavour of that
+                # (select raises, poll reports POLLNVAL, epoll/kqueue - or poll once the descriptor number has been
+                # reused by another socket - stay silent)
+                for cw in ('raise', 'nval', 'silent'):
+                    one(case, pn, tn, acc, cw=case.get('cw', cw))
+                    if 'cw' in case:
+                        break
+            else:
+                one(case, pn, tn, acc)
 
 
-def one(case, pn, tn, acc):
+def one(case, pn, tn, acc, cw=None):
     from ..ref import http as refhttp
     hsname = case['hs']
     spec = HS[hsname]
@@ -183,6 +192,10 @@ def one(case, pn, tn, acc):
     # "every server behaviour, every application reaction and every fault" - for whatever URL the application has:
     # explicit ports, userinfo, IPv6 literals, resources and queries outside ASCII
     url = URL_SHAPES[(len(case['seq']) * 7 + len(pn) + len(tn) + len(hsname)) % len(URL_SHAPES)]
+    if cw is not None:
+        w.closed_wait = cw
+        case = dict(case, cw=cw)
+        acc.count2('oracle', 'closed_under_selector_' + cw)
     run = H.drive(w, url=url, connect_kwargs=ckw, policy=H.TablePolicy(POLICIES[pn]))
     judge(run, w, acc, dict(case, policy=pn, timer=tn))
     if run.end == 'stop' and (len(case['seq']) + len(pn) + len(tn)) % 3 == 0:
@@ -202,6 +215,9 @@ def judge(run, w, acc, case):
     key = monitors.grammar_violation(names, run.end == 'stop')
     if key is None:
         key = monitors.run_end_violation(run, w)
+        if key in ('waiting-after-transport-end', 'no-termination-after-transport-end') and case.get('cw') == 'silent' \
+                and not any(e[0] == 'recv' and e[5] == b'' or e[0] in ('recv_fault', 'wait_fault') for e in w.log):
+            key += ':session-closed-during-an-event-and-the-selector-stays-silent'
     if key is None and run.end == 'quiesced' and case.get('timer') in TIMERS:
         key = overdue_timeout(run, w, TIMERS[case['timer']][0])
         if key is None and 'ready' in names and w.now - run.times[names.index('ready')] > 4.0:
